@@ -357,6 +357,10 @@ def _call(model, rng, form, acc, ident, want_direction):
             model.slim_optimize()
         elif form == "slim(error_value=-7)":
             model.slim_optimize(error_value=-7.0)
+        elif form == "slim(error_value=0)":
+            model.slim_optimize(error_value=0)
+        elif form == "slim(error_value=0.0)":
+            model.slim_optimize(error_value=0.0)
         else:
             model.slim_optimize(error_value=None)
             # returned normally: there must be an optimum (the postcondition
@@ -444,7 +448,7 @@ def run_generated(desc, acc):
                 b = rng.choice([(0, 5), (-3, 3), (0, 0), (1, 2), (-1000, 1000)])
                 r.bounds = b
                 ident["edit"] = [r.id, list(b)]
-            forms = rng.sample(["optimize()", "optimize(maximize)", "optimize(minimize)", "slim()", "slim(error_value=-7)", "slim(error_value=None)", "optimize(raise_error)"], 4)
+            forms = rng.sample(FORMS, 4)
             for form in forms:
                 if nontrivial:
                     acc.nontrivial(sig, interface, form, history)
@@ -559,7 +563,7 @@ def run_bundled(desc, acc):
             acc.sample({"bundled": desc["model"], "edits": edits})
 
 
-FORMS = ["optimize()", "optimize(maximize)", "optimize(minimize)", "slim()", "slim(error_value=-7)", "slim(error_value=None)", "optimize(raise_error)"]
+FORMS = ["optimize()", "optimize(maximize)", "optimize(minimize)", "slim()", "slim(error_value=-7)", "slim(error_value=0)", "slim(error_value=0.0)", "slim(error_value=None)", "optimize(raise_error)"]
 INF = float("inf")
 BOUND_MENU = [(0, 5), (-3, 3), (0, 0), (1, 2), (-1000, 1000), (-INF, INF), (0, INF), (-INF, 0), (5, 10), (-10, -5), (0, 1000), (-1000, 0), (2.5, 2.5)]
 
